@@ -135,6 +135,21 @@ class Json:
                     if (callee_name(tm) or "").endswith("is_control") or (callee_name(tm) or "").endswith("is_ascii_control"):
                         cmp20 = True
             res = 0x22 in consts and 0x5c in consts and cmp20
+            # every escape sequence the function can emit must be a JSON escape (RFC 8259 section 7)
+            valid = {'\\"', "\\\\", "\\/", "\\b", "\\f", "\\n", "\\r", "\\t"}
+            bad_esc = []
+            for b in P.family(fid):
+                for st in body_strings(b):
+                    if st.startswith("\\") and st not in valid:
+                        bad_esc.append(st)
+                for fs in fmt_sites(P, b):
+                    if fs.pieces:
+                        for pc in fs.pieces:
+                            if pc[0] == "lit" and pc[1].startswith("\\") and not pc[1].startswith("\\u") and pc[1] not in valid:
+                                bad_esc.append(pc[1])
+            if bad_esc:
+                self.problems.append(("json-escaper:invalid-escape:%s" % bad_esc[0].encode("unicode_escape").decode(), self.ctx.where(P.bodies[fid]),
+                                      "the JSON escaper emits %r, which is not one of the escapes JSON allows (\\\" \\\\ \\/ \\b \\f \\n \\r \\t \\uXXXX)" % bad_esc[0]))
         self.sanitisers[fid] = res
         return res
 
@@ -255,69 +270,131 @@ def _count_case(e):
     return None
 
 
+def _col_meaning(e):
+    """semantic of an aggregate select item: ('count-if', op, param, nullsafe) | ('total', nullsafe) | None"""
+    c = _count_case(e)
+    if c is not None:
+        return ("count-if",) + c
+    x = e
+    ns = False
+    if x[0] == "func" and x[1] in ("coalesce", "ifnull") and len(x[2]) == 2 and x[2][1] == ("num", 0):
+        ns = True
+        x = x[2][0]
+    if x[0] == "func" and x[1] == "count" and len(x[2]) == 1 and x[2][0] in (("star",), ("num", 1)):
+        return ("total", True)
+    return None
+
+
 def _r1_r4(ctx, M, cg):
     P = ctx.P
-    sites = [s for s in M.lease_sql() if s.stmt["kind"] == "select" and {"active", "expired"} <= set(_agg_items(s.stmt))]
-    ctx.floor("R1", "metrics query", len(sites), 1)
-    for s in sites:
-        ctx.saw(s.body)
-        where = ctx.where(s.body, s.term["sp"])
-        items = _agg_items(s.stmt)
-        ia, ea = items["active"]
-        ie, ee = items["expired"]
-        ca, ce = _count_case(ea), _count_case(ee)
-        ctx.check(ca is not None and ca[0] in (">", ">="), "R1", "active=count(expiry>now)" if ca and ca[0] in (">", ">=") else
-                  "active=count(expiry%snow)" % (ca[0] if ca else "?"), where,
-                  "`active` must count rows whose expiry is after now; it is %s" % (str(ea)[:160]))
-        ctx.check(ce is not None and ce[0] in ("<", "<="), "R1", "expired=count(expiry<=now)" if ce and ce[0] in ("<", "<=") else
-                  "expired=count(expiry%snow)" % (ce[0] if ce else "?"), where,
-                  "`expired` must count rows whose expiry has passed; it is %s" % (str(ee)[:160]))
-        if ca and ce and ca[0] in (">", ">=") and ce[0] in ("<", "<="):
-            compl = {">": "<=", ">=": "<"}.get(ca[0]) == ce[0] and ca[1] == ce[1]
-            ctx.check(compl, "R1", "active/expired-are-complements", where, "the two conditions must partition the rows (%s vs %s, same bound)" % (ca[0], ce[0]))
-        if ca and ce:
-            tp = s.param(ca[1])
-            okk, why = is_now_seconds(tp) if tp is not None else (False, "unbound")
-            ctx.check(okk, "R1", "metrics-bound=now", where, "the comparison bound must be the current time (%s)" % why)
-            ctx.check(ca[2] and ce[2], "R4", "aggregates-null-safe-on-empty-table", where,
-                      "SUM over zero rows is NULL and the row is read as u32: the aggregates must be NULL-safe "
-                      "(COALESCE(SUM(..),0), TOTAL or COUNT) or an empty lease table makes the gauges fail")
+    # anchor: the pool function returning the (active, expired) pair
+    fns = [f for f, sg in P.sigs.items() if f in P.bodies and "dhcp::pool::Pool" in f and sig_output(sg).startswith("std::result::Result<(u32, u32)")]
+    ctx.floor("R1", "metrics function", len(fns), 1)
+    for f in fns:
+        body = P.bodies[f]
+        ctx.saw(body)
+        T = terms(P, body)
+        sites = [s for s in M.lease_sql() if s.body.id == f and s.stmt["kind"] == "select"]
+        if len(sites) != 1:
+            ctx.bad("R1", "metrics-query-not-unique", ctx.where(body), "expected one SELECT on leases in the metrics function, found %d" % len(sites))
+            continue
+        s = sites[0]
+        where = ctx.where(body, s.term["sp"])
         if s.stmt.get("where") is not None or s.stmt.get("limit") is not None:
             ctx.bad("R1", "metrics-query-restricted", where, "the metrics query must range over all rows")
-        # column -> tuple element -> gauge
-        cdef = closure_def_of(norm(terms(P, s.body).call_args(s.bb)[3]))
+        cols = [_col_meaning(e) for e, _ in s.stmt["items"]]
+        cdef = closure_def_of(norm(T.call_args(s.bb)[3])) if len(s.term["args"]) > 3 else None
         info = closure_row_columns(P, cdef) if cdef else None
         colmap = info[1] if info else {}
-        # who consumes the result
+
+        # what the function returns: a pair; each element is column k or (column j - column k)
+        def elem_meaning(t):
+            """-> ('col', k) | ('sub', j, k) | None in terms of tuple elements of the row closure"""
+            t = norm(t)
+            while t[0] == "cast":
+                t = norm(t[3])
+            if t[0] == "field" and t[2] == "0" and t[1][0] == "bin" and t[1][1].startswith("Sub"):
+                a, b_ = elem_meaning(t[1][2]), elem_meaning(t[1][3])
+                if a and b_ and a[0] == "col" and b_[0] == "col":
+                    return ("sub", a[1], b_[1])
+                return None
+            if t[0] == "bin" and t[1].startswith("Sub"):
+                a, b_ = elem_meaning(t[2]), elem_meaning(t[3])
+                if a and b_ and a[0] == "col" and b_[0] == "col":
+                    return ("sub", a[1], b_[1])
+                return None
+            if t[0] == "field" and t[2].isdigit() and any(y[0] == "call" and "rusqlite::Connection" in str(y[1]) for y in subterms(t[1])):
+                k = colmap.get(t[2])
+                return ("col", k) if k is not None else None
+            return None
+        pair = None
+        rets = []
+        for bb, idx, st in body.stmts():
+            if st["p"] == (0,) and "rv" in st:
+                rets.append(norm(T.rvalue(st["rv"], bb, idx)))
+        for bb, tm in body.calls():
+            if tm["dest"] == (0,):
+                rets.append(norm(T.call_term(tm, bb)))
+        for r in rets:
+            if r[0] == "agg" and r[2] == "Ok" and r[3][0][1][0] == "agg" and r[3][0][1][1] == "tuple":
+                tp = r[3][0][1][3]
+                pair = (elem_meaning(tp[0][1]), elem_meaning(tp[1][1]))
+            elif r[0] == "call" and str(r[1]).endswith("::map_err"):
+                # the row closure's tuple is returned unchanged
+                pair = (("col", colmap.get("0")), ("col", colmap.get("1")))
+        if pair is None or None in pair:
+            ctx.bad("R1", "metrics-result-shape-unrecognised", where, "cannot relate the returned (active, expired) pair to the query's columns; cannot decide")
+            continue
+
+        def describe(m):
+            if m[0] == "col":
+                c = cols[m[1]] if m[1] is not None and m[1] < len(cols) else None
+                return c
+            j, k = cols[m[1]] if m[1] < len(cols) else None, cols[m[2]] if m[2] < len(cols) else None
+            if j and k and j[0] == "total" and k[0] == "count-if":
+                inv = {">": "<=", ">=": "<", "<": ">=", "<=": ">"}.get(k[1])
+                return ("count-if", inv, k[2], j[1] and k[3])
+            return None
+        act, exp = describe(pair[0]), describe(pair[1])
+        a_ok = act is not None and act[0] == "count-if" and act[1] == ">"
+        e_ok = exp is not None and exp[0] == "count-if" and exp[1] == "<="
+        ctx.check(a_ok, "R1", "active=count(expiry>now)" if a_ok else "active=count(expiry%snow)" % (act[1] if act and act[0] == "count-if" else "?"), where,
+                  "the first element (active) must count exactly the rows with expiry > now; it counts expiry %s now (%s)" % (
+                      act[1] if act and act[0] == "count-if" else "?", s.stmt["text"][:140]))
+        ctx.check(e_ok, "R1", "expired=count(expiry<=now)" if e_ok else "expired=count(expiry%snow)" % (exp[1] if exp and exp[0] == "count-if" else "?"), where,
+                  "the second element (expired) must count exactly the rows with expiry <= now; it counts expiry %s now" % (
+                      exp[1] if exp and exp[0] == "count-if" else "?"))
+        if act and exp and act[0] == exp[0] == "count-if":
+            ctx.check(act[2] == exp[2], "R1", "active/expired-use-the-same-bound", where, "")
+            tp_ = s.param(act[2])
+            okk, why = is_now_seconds(tp_) if tp_ is not None else (False, "unbound")
+            ctx.check(okk, "R1", "metrics-bound=now", where, "the comparison bound must be the current time (%s)" % why)
+            ctx.check(bool(act[3]) and bool(exp[3]), "R4", "aggregates-null-safe-on-empty-table", where,
+                      "SUM over zero rows is NULL and the row is read as u32: the aggregates must be NULL-safe "
+                      "(COALESCE(SUM(..),0), TOTAL or COUNT) or an empty lease table makes the gauges fail")
+        # consumers: tuple element 0 -> active gauge, 1 -> expired gauge
         n = 0
-        for cb, bb, tm in cg.callers(s.body.id):
-            T = terms(P, cb)
+        for cb, bb, tm in cg.callers(f):
+            Tc = terms(P, cb)
             for b2, t2 in cb.calls():
                 n2 = callee_name(t2) or ""
                 if not n2.endswith("::set") or "prometheus" not in n2:
                     continue
-                args = [norm(a) for a in T.call_args(b2)]
+                args = [norm(a) for a in Tc.call_args(b2)]
                 g = args[0]
                 gname = g[1][1] if g[0] == "const" and isinstance(g[1], tuple) and g[1][0] == "static" else None
                 role = _gauge_role(P, gname)
-                v = args[1]
-                # tuple element of the Ok payload of the metrics call
                 elem = None
-                for sub in subterms(v):
-                    if sub[0] == "field" and sub[2].isdigit() and sub[1][0] == "payload" and sub[1][2][0] == "call" and sub[1][2][1] == s.body.id:
+                for sub in subterms(args[1]):
+                    if sub[0] == "field" and sub[2].isdigit() and sub[1][0] == "payload" and sub[1][2][0] == "call" and sub[1][2][1] == f:
                         elem = sub[2]
                 if elem is None or role is None:
                     continue
                 n += 1
-                col = colmap.get(elem)
-                alias = None
-                for al, (k, _) in items.items():
-                    if k == col:
-                        alias = al
-                ctx.check(alias == role, "R1", "gauge:%s<-column:%s" % (role, alias), ctx.where(cb, t2["sp"]),
-                          "the gauge registered as %s must be set from the `%s` column (tuple element %s = column %s = `%s`)" % (
-                              gname, role, elem, col, alias))
-        ctx.floor("R1", "gauge updates from the metrics query", n, 2)
+                want = {"0": "active", "1": "expired"}.get(elem)
+                ctx.check(want == role, "R1", "gauge:%s<-pair.%s" % (role, elem), ctx.where(cb, t2["sp"]),
+                          "the gauge registered as %s must be set from the %s element of the metrics pair" % (gname, role))
+        ctx.floor("R1", "gauge updates from the metrics pair", n, 2)
 
 
 def _gauge_role(P, static_path):
